@@ -436,3 +436,20 @@ _APPEND = {
 }
 for _pid, _txt in _APPEND.items():
     CLAIMS[_pid]["level"] = CLAIMS[_pid]["level"].rstrip() + _txt
+
+# round 7 (changes outside the anchored functions)
+_APPEND7 = {
+    "C01": " Every row of the caller's feed reaches the data handler (no row filter between the entry point's argument and CombinedDataHandler).",
+    "C03": " The floored vector is published on the rows it was computed for: the results handler stores the frames of get_units themselves (or plain copies).",
+    "C05": " The closed-form vector is published on the rows it was computed for (results handler stores the frames of get_units or plain copies).",
+    "C08": " The aggregate steps get the same unit frames in every iteration of the client's loops, so the contest-level quantities the summary reads do not "
+           "depend on which other tables were requested, or in which order.",
+    "C11": " No row of the feed is filtered away before the data handler sees it (restated from C01.R8).",
+    "C12": " Attributes that keep a caller's container by reference (interval levels, estimands) are never changed in place, directly or through an alias.",
+    "C13": " The unit frames handed to the model steps inside the client's loops are loop-invariant; a flag written in an except handler counts as state that "
+           "depends on the failing call's arguments.",
+    "C17": " The history stored by get_versioned_results is the whole download (no version filtered out before the per-unit pass).",
+    "C19": " The window bounds reach the listing as the instants the caller named: parsed and converted between timezones, never re-labelled (unless bare) or shifted.",
+}
+for _pid, _txt in _APPEND7.items():
+    CLAIMS[_pid]["level"] = CLAIMS[_pid]["level"].rstrip() + _txt
